@@ -11,6 +11,14 @@ BASE_NOTE = ("Trusted base: CPython 3.12, the reference model in the harness, th
 
 # pid -> (category, design_ref, text, technique, note)
 CHECKS = {
+    'C01': ('exploration', 'DESIGN.md §3 C01',
+            'Every built-in non-numpy, non-filesystem Parameter type x every constraint configuration (bounds None/one-/two-sided x four '
+            'inclusivities, allow_None, regexes, lengths, item types, object lists/dicts, check_on_set, class_/is_instance) x ~110 candidate '
+            'values plus each configuration\'s boundary and just-outside (nextafter) values x 7 assignment routes (Parameter default, constructor, '
+            'instance attribute, class attribute, instance/class update, deserialization) is executed; acceptance must equal an independent '
+            'three-valued predicate, rejections must be ValueError/TypeError and leave the value untouched, accepted values read back by identity.',
+            'bounded-exhaustive enumeration (type x configuration x value x route) against an independent acceptance predicate',
+            BASE_NOTE + ' Cases the documentation leaves open are EITHER (counted in the evidence, not judged).'),
     'C03': ('model_checking', 'DESIGN.md §3 C03, Appendix A',
             'Every program up to the depth bound over five complete slices of watcher configurations (ordering/lifecycle, changes-only '
             'filtering over a 22-value equality domain incl. 1/True/1.0/NaN/equal containers/dates/sets, queued and non-queued cascades, '
